@@ -67,6 +67,11 @@ def _compare(res, par, raw=False, check_pairs=True):
         got = [(k, str(par[k])) for k in par.pairs()]
         if got != list(merged.items()):
             diffs.append('pairs: spec %r, real %r' % (list(merged.items()), got))
+    if check_pairs:
+        # Yanny!PairDict: new_dict_from_pairs() = keys in first-occurrence order, last value wins
+        nd = par.new_dict_from_pairs()
+        if [(k, str(v)) for k, v in nd.items()] != list(merged.items()):
+            diffs.append('new_dict_from_pairs: spec %r real %r' % (list(merged.items()), list(nd.items())))
     tabs = list(res['tables'])
     names = [text(t['name']) for t in tabs]
     if list(par.tables()) != names:
@@ -118,6 +123,25 @@ def _compare(res, par, raw=False, check_pairs=True):
                 elif bdt.kind != 'S':
                     diffs.append('%s.%s enum column dtype %s' % (name, cn, bdt))
             col = data[cn]
+            # Yanny!RowOf / ListOfDicts: the accessors agree with the table itself
+            if ci == 0:
+                if par.row(name, -1) != [] or par.row(name, nrows) != []:
+                    diffs.append('%s row() out of range is not empty' % name)
+                lod = par.list_of_dicts(name)
+                if len(lod) != nrows or any(list(d.keys()) != cnames for d in lod):
+                    diffs.append('%s list_of_dicts() shape: %d rows, keys %r' % (name, len(lod), [list(d.keys()) for d in lod[:1]]))
+                for ri in range(nrows):
+                    rw = par.row(name, ri)
+                    if len(rw) != len(cols):
+                        diffs.append('%s row(%d) has %d cells' % (name, ri, len(rw)))
+                        continue
+                    for cj, cc in enumerate(cols):
+                        bj = text(cc['base'])
+                        scj = t['rows'][ri][cj]
+                        okj = (len(scj) == len(rw[cj]) and all(cell_equal(bj, a, b, False) for a, b in zip(scj, rw[cj]))) \
+                            if cc['alen'] > 0 else cell_equal(bj, scj, rw[cj], False)
+                        if not okj:
+                            diffs.append('%s row(%d)[%d]: spec %r real %r' % (name, ri, cj, scj, rw[cj]))
             for ri in range(nrows):
                 sc = t['rows'][ri][ci]
                 rc = col[ri]
